@@ -42,3 +42,8 @@ fn s_bottleneck_sample() {
     kani::cover!(delay == Duration::ZERO, "zero network delay");
     core::mem::forget(nb);
 }
+
+/// `WindowCount::new` with a small buffer (see small_bottleneck)
+pub(crate) fn window_new_small(window: Duration) -> WindowCount {
+    WindowCount { window, timestamps: VecDeque::with_capacity(4) }
+}
